@@ -234,7 +234,7 @@ def main(tier: str, replay: str | None = None):
     griffe = ensure_repo()
     run = Run("C11", tier)
     run.rule = ("DiffTree.tla: one state per (base package, edit script): base = defining module mod/_mod x __all__ none/full/part x re-exports in pkg/__init__ x root __all__ x dangling x cyclic re-export x K(B); "
-                "edits from the catalogue Remove/ChangeKind/ChangeValue/RemoveBase (incompatible) and AddPublic/AddOptKw/AddReturn/AddBase (compatible) at public and private locations. "
+                "edits from the catalogue Remove/ChangeKind/ChangeValue/RemoveBase (incompatible) and AddPublic/AddOptKw/AddReturn/AddBase/Vendor (compatible) at public and private locations. "
                 "Non-trivial = state with >= 1 edit, or identical pair whose base has a public dangling/cyclic re-export; distinct by (base, edit script).")
     catch = L.catches_cyclic()
     run.extra["catch_cyclic_probed"] = catch
@@ -316,7 +316,7 @@ def main(tier: str, replay: str | None = None):
             n_private += sum(1 for ob in c["oblig"] if ob["op"] in ("Remove", "ChangeKind", "ChangeValue", "RemoveBase") and not ob["public"])
             n_cyc += bool(g["old"]["cyc"] and exported)
             n_ext += bool(g["old"]["ext"] and exported)
-    if ops != {"Remove", "ChangeKind", "ChangeValue", "RemoveBase", "AddBase", "AddPublic", "AddOptKw", "AddReturn"}:
+    if ops != {"Remove", "ChangeKind", "ChangeValue", "RemoveBase", "AddBase", "AddPublic", "AddOptKw", "AddReturn", "Vendor"}:
         die(f"C11: vacuous enumeration, edits reached: {sorted(ops)}")
     if not (n_oblig and n_compat and n_private and n_cyc and n_ext):
         die(f"C11: vacuous enumeration: obligations={n_oblig} compatible={n_compat} private-edits={n_private} cyclic={n_cyc} dangling={n_ext}")
